@@ -363,13 +363,21 @@ def gen_cases(kind, seed, n):
             # distances - a cutoff EQUAL to a realised distance must keep exactly the entries within it
             nm = r2.shuffle(POOL)[:4 + r2.below(4)]
             des = []
+            # every third such case: weights that differ by less than single precision resolves (1 vs 1 - 1e-9) next to
+            # very light edges, so that a narrowed (f32) priority mis-orders the fringe
+            near = (i % 20 == 17)
+            if near:
+                # s -> b (1 - 1e-9), s -> a (1), b -> a (1e-10): a must be improved through b, which is settled first
+                # only if the fringe orders 0.999999999 before 1.0
+                des += [(nm[0], nm[1], 0.999999999, None), (nm[0], nm[2], 1.0, None), (nm[1], nm[2], 1e-10, None)]
             for _ in range(len(nm) + r2.below(2 * len(nm))):
                 x, y = r2.pick(nm), r2.pick(nm)
                 if x != y:
-                    des.append((x, y, (1 + r2.below(9)) / 10.0, None))
+                    w = r2.pick([1.0, 0.999999999, 1e-10, 0.5, 0.500000001, 1.000000001]) if near else (1 + r2.below(9)) / 10.0
+                    des.append((x, y, w, None))
             dspec = (r2.below(2), 0, 1, 2, 0, 1)
             cases.append({"id": "%s_d%d" % (kind, i), "spec": dspec, "nodes": [(x, None) for x in nm], "edges": des,
-                          "wmode": "decimal", "wscale": 0, "nomodel": True,
+                          "wmode": "decimal", "wscale": 0, "nomodel": True, "near": near,
                           "calls": [{"fn": "cutsweep", "w": 1, "level": 2, "src": [x], "t": None, "c": None,
                                      "fo": 0, "wp": 1} for x in nm]})
     return cases
@@ -655,7 +663,8 @@ def cutsweep_oracle(c, obs):
     store = {}
     for (u, v, w, _a) in c["edges"]:
         k = (u, v) if directed or u <= v else (v, u)
-        store[k] = Fraction(int(round(w * 10)), 10)          # KeepLast
+        # KeepLast; the decimal the weight stands for (k/10), or the binary64 value itself for the near-tie weights
+        store[k] = Fraction(w) if c.get("near") else Fraction(int(round(w * 10)), 10)
     adj = {}
     for (u, v), w in store.items():
         adj.setdefault(u, []).append((v, w))
@@ -677,7 +686,7 @@ def cutsweep_oracle(c, obs):
             msgs.append("weighted single_source(%d) reports the nodes %s, reachable are %s" % (s0, sorted(got), sorted(dist)))
         else:
             for y, d in dist.items():
-                if abs(got[y] - float(d)) > 1e-9 * max(1.0, float(d)):
+                if abs(got[y] - float(d)) > 1e-12 * max(1.0, float(d)):
                     msgs.append("weighted single_source(%d): distance to %d is %r, the edge list gives %s" % (s0, y, got[y], d))
                     break
     return msgs
